@@ -30,7 +30,7 @@ theorem step_ready {c : Config} {t : Nat} {th : Thread} (hth : c.threads[t]? = s
         | rel l => simp only [hcur, hcd]; exact ⟨_, rfl⟩
         | act a => simp only [hcur, hcd]; exact ⟨_, rfl⟩
 
-theorem step_acq {c : Config} {t : Nat} {th : Thread} {op : Op} {l : LockId} {m : Mode} {rest : List Instr}
+theorem step_acq {c : Config} {t : Nat} {th : Thread} {op : XOp} {l : LockId} {m : Mode} {rest : List Instr}
     (hth : c.threads[t]? = some th) (hc : th.cur = some op) (hcode : th.code = .acq l m :: rest)
     (hacq : canAcq c l m = true) : ∃ c', stepThread c t = some c' := by
   unfold stepThread
@@ -46,7 +46,7 @@ theorem canAcq_of {c : Config} {l : LockId} {m : Mode}
 
 /-- a thread that is not `Ready` is finished, or waits for `access_lock` holding nothing, or waits
 for `lru_mutex` holding the shared lock -/
-theorem Phase.classify {s : State} {log : List Lin} {t : Nat} {th : Thread} (h : Phase s log t th) :
+theorem Phase.classify {s : XState} {log : List Lin} {t : Nat} {th : Thread} (h : Phase s log t th) :
     Ready th ∨ (th.finished = true ∧ th.held = []) ∨
     (th.held = [] ∧ th.cur ≠ none ∧ ∃ m rest, th.code = .acq .access m :: rest) ∨
     (th.held = [(.access, .shared)] ∧ th.cur ≠ none ∧ ∃ rest, th.code = .acq .lru .exclusive :: rest) := by
@@ -66,7 +66,7 @@ theorem Phase.classify {s : State} {log : List Lin} {t : Nat} {th : Thread} (h :
   | rel1 op m out hc hcode hheld hret hlin => exact Or.inl (Or.inr ⟨by simp [hc], by simp [hcode]⟩)
   | fin op out hc hcode hheld hret hlin => exact Or.inl (Or.inr ⟨by simp [hc], by simp [hcode]⟩)
 
-theorem deadlock_free_of_inv {s₀ : State} {c : Config} (h : Inv s₀ c) (hnd : c.allDone = false) :
+theorem deadlock_free_of_inv {s₀ : XState} {c : Config} (h : Inv s₀ c) (hnd : c.allDone = false) :
     ∃ t c', stepThread c t = some c' := by
   have cls : ∀ t th, c.threads[t]? = some th → _ := fun t th hget => (h.thr t th hget).phase.classify
   -- an unfinished thread
@@ -130,7 +130,7 @@ open Cppcms Cppcms.C07
 
 /-! ### a measure that every effective step decreases -/
 
-def opCost (op : Op) : Nat := (Gen.prog (methodOf op)).length + 2
+def opCost (op : XOp) : Nat := (Gen.prog (methodOf op)).length + 2
 
 def Thread.measure (th : Thread) : Nat :=
   (th.todo.map opCost).sum + (if th.cur.isSome then th.code.length + 1 else 0)
@@ -158,10 +158,10 @@ theorem sum_set_lt {l : List Thread} {t : Nat} {th th' : Thread} (hget : l[t]? =
 theorem measure_put {c : Config} {t : Nat} {th th' : Thread} (hget : c.threads[t]? = some th)
     (hlt : th'.measure < th.measure) : (c.put t th').measure < c.measure := sum_set_lt hget hlt
 
-theorem measure_lin {c : Config} {t : Nat} {th th' : Thread} {op : Op} (hget : c.threads[t]? = some th)
+theorem measure_lin {c : Config} {t : Nat} {th th' : Thread} {op : XOp} (hget : c.threads[t]? = some th)
     (hlt : th'.measure < th.measure) : (linStep c t th op th').measure < c.measure := sum_set_lt hget hlt
 
-theorem measure_step {s₀ : State} {c c' : Config} {t : Nat} (h : Inv s₀ c) (hs : stepThread c t = some c') :
+theorem measure_step {s₀ : XState} {c c' : Config} {t : Nat} (h : Inv s₀ c) (hs : stepThread c t = some c') :
     c'.measure < c.measure := by
   unfold stepThread at hs
   cases hth : c.threads[t]? with
@@ -187,7 +187,7 @@ theorem measure_step {s₀ : State} {c c' : Config} {t : Nat} (h : Inv s₀ c) (
     | f1 now k hc hcode hheld hn =>
       simp only [hth, hc, hcode, Option.some.injEq] at hs
       subst hs
-      cases hlk : alookup k c.s.primary with
+      cases hlk : alookup k c.s.cache.primary with
       | none =>
         rw [execAct_lookup_none hlk]
         exact measure_lin hth (by simp [Thread.measure, hc, hcode, hheld])
@@ -244,7 +244,7 @@ theorem measure_step {s₀ : State} {c c' : Config} {t : Nat} (h : Inv s₀ c) (
       exact measure_put hth (by simp [Thread.measure, hc, hcode])
 
 /-- from every configuration satisfying the invariant some schedule completes every operation -/
-theorem completes_of_inv {s₀ : State} (n : Nat) : ∀ c : Config, Inv s₀ c → c.measure ≤ n →
+theorem completes_of_inv {s₀ : XState} (n : Nat) : ∀ c : Config, Inv s₀ c → c.measure ≤ n →
     ∃ sched, (run c sched).allDone = true := by
   induction n with
   | zero =>
